@@ -6,13 +6,23 @@ use crate::driver::{Cfg, Cmd, Level, LoggerKind, Profile};
 use crate::engine::{self, Item, Report, RunOpts, Sink};
 use crate::corpus;
 
+pub mod c02;
+pub mod c03;
+pub mod c04;
+pub mod c06;
+pub mod c10;
 pub mod c05;
 
 pub fn run(prop: &str, thorough: bool) -> Option<Report> {
     let tier = if thorough { "thorough" } else { "quick" };
     let mut rep = Report::new(prop, tier);
     match prop {
+        "C02" => c02::run(&mut rep, thorough),
+        "C03" => c03::run(&mut rep, thorough),
+        "C04" => c04::run(&mut rep, thorough),
         "C05" => c05::run(&mut rep, thorough),
+        "C06" => c06::run(&mut rep, thorough),
+        "C10" => c10::run(&mut rep, thorough),
         _ => return None,
     }
     Some(rep)
